@@ -163,7 +163,11 @@ func runC02Stall(s *kernel.Sim) {
 var srcAddrs = []string{"10.1.2.3:5555", "[2001:db8::7]:4444", "host.example.org:3333", "[::1]:2222", "203.0.113.9:1", "[fe80::1]:9", ":7777", "[::]:8888", "0.0.0.0:9999", "[fe80::1%eth0]:51234", "[fe80::5%abc0]:6"}
 
 func overrides(a, other *Actor, pick int) string {
-	switch pick % 18 {
+	switch pick % 20 {
+	case 18:
+		return "enode://" + a.ID // an id without an address
+	case 19:
+		return "enode://" + other.ID // somebody else's id without an address
 	case 16:
 		return "enode://" + a.ID + "@[fe80::2%25eth1]:30306" // IPv6 literal with a zone
 	case 17:
@@ -234,7 +238,7 @@ func runWorldSeq(s *kernel.Sim, p profile) {
 	for _, a := range w.Actors {
 		a.Kind = []string{"geth", "geth", "parity", ""}[s.Choose("kind", 4)]
 		if p.hostPolicies && a.IsHost {
-			a.Policy = []HostPolicy{PolicyAck, PolicyAck, PolicyAck, PolicyError, PolicySilent, PolicySlow}[s.Choose("policy", 6)]
+			a.Policy = []HostPolicy{PolicyAck, PolicyAck, PolicyAck, PolicyError, PolicySilent, PolicySlow, PolicyDeaf}[s.Choose("policy", 7)]
 		}
 		if s.Choose("haswallet", 3) != 0 {
 			a.Wallet = w.Wallets[s.Choose("wallet", len(w.Wallets))]
@@ -311,7 +315,7 @@ func runWorldSeq(s *kernel.Sim, p profile) {
 					payout = a.Wallet.Addr
 				}
 				if p.uriOverrides && a.IsHost {
-					ov = overrides(a, anyActor(), d.choose("override", 18))
+					ov = overrides(a, anyActor(), d.choose("override", 20))
 				}
 				d.Connect(a, payout, ov, false)
 			case 2: // keep-alive
@@ -399,7 +403,7 @@ func runWorldSeq(s *kernel.Sim, p profile) {
 				if a.IsHost {
 					ov := ""
 					if p.uriOverrides {
-						ov = overrides(a, anyActor(), d.choose("override", 18))
+						ov = overrides(a, anyActor(), d.choose("override", 20))
 					}
 					d.Connect(a, "", ov, true)
 				} else {
